@@ -13,6 +13,57 @@ TB = ("Trusted: Lean 4.33 kernel; axioms propext/Classical.choice/Quot.sound onl
       "gcc/glibc/ASan; the C harness's abstraction functions and the script generators.")
 
 CLAIMED = {
+    "C01": {
+        "design_ref": "DESIGN.md 4/C01",
+        "text": "Lean 4 theorems over a functional tree model (bintree and red-black operations reproducing the C code's shape, "
+                "colours and element placement exactly): insert/insert-with-hint keep the in-order multiset and sortedness, a hint "
+                "taken from find equals an unhinted insert, find iff held, erase returns and removes exactly one held element with "
+                "that key, rotations and recolouring preserve the in-order list, traversal events (each held element exactly one "
+                "MID-or-LEAF, non-leaf bracketed by PRE/POST, order = in-order / mirrored, stop rule), clear, and history theorems "
+                "bt_run_refines / rb_run_refines against a multiset spec over arbitrary operation lists. Tied to /repo by differential "
+                "execution (closure over all shapes with <= 6-8 elements over 3-4 keys incl. duplicates, hinted inserts, every erase "
+                "case, traversals with stop at each position; seeded random histories) comparing full shape with ids and colours, "
+                "results and event lists; reference-multiset / event-structure oracle.",
+        "note": TB + " Parent links are not part of the functional model: the harness checks every child's parent link on every explored state (links=bad marker), that is not proved.",
+        "technique": "Lean 4 proof (structural induction, refinement to a multiset spec over operation lists) + model/implementation correspondence check",
+    },
+    "C02": {
+        "design_ref": "DESIGN.md 4/C02",
+        "text": "Lean 4 theorems: Inv = root black, no red-red, equal black count on every root-to-missing-child path (tied to an "
+                "inductive balance predicate by inv_iff_bal) is preserved by red-black insert (any hint) and erase, the sibling the C "
+                "code dereferences always exists (run_no_segv), for every history (run_inv); height bound 2^((h+1)/2) <= n+1 and "
+                "2^h <= (n+1)^2 for every reachable tree. Tied to /repo by colour-exact differential execution (closure over all shapes "
+                "and colourings with <= 7-8 elements, random histories with heavy duplication); the harness recomputes the rules, "
+                "parent links and cstl_rbtree_height on the C tree.",
+        "note": TB + " Parent-link consistency is checked by the harness on every explored state, not proved.",
+        "technique": "Lean 4 proof (inductive invariant over operation lists) + colour-exact model/implementation correspondence check",
+    },
+    "C08": {
+        "design_ref": "DESIGN.md 4/C08",
+        "text": "Lean 4 theorems over the map layer on the red-black model with a malloc oracle and an allocation ledger: insert of an "
+                "existing key returns 1 and changes nothing, new key returns 0, malloc failure returns -1 with the state unchanged, "
+                "find/erase/erase-by-iterator specs, size, clear calls back once per entry then frees everything, run_refines over "
+                "arbitrary histories against Key -> Option (key ptr, value ptr, node) plus the live-block ledger. Tied to /repo by "
+                "differential execution (closure over 3-5 keys incl. allocation failures, random histories) comparing return codes, "
+                "iterator contents, size, tree dump and malloc/free log; one-entry-per-key reference dict + ledger oracle.",
+        "note": TB,
+        "technique": "Lean 4 proof (refinement to a partial-function spec over operation lists) + model/implementation correspondence check",
+    },
+    "C11": {
+        "design_ref": "DESIGN.md 4/C11",
+        "text": "Lean 4 theorems over an index-checked model of array.c's algorithms (partition loop with pivot tracking, three pivot "
+                "rules with the random draws as an oracle stream, median-of-three 3-sort, heapsort build/sift/extract, selector "
+                "dispatch, binary search with C int arithmetic, linear find, reverse): partition spec, every selector returns a sorted "
+                "permutation whenever it returns and never accesses outside [0,count) plus the scratch cell, termination for the "
+                "deterministic pivots (fuel = count) and for the random pivot on every stream that eventually draws 0, the exact "
+                "non-terminating corner proved, heapsort total, default fallback, search iff on sorted input (<= 2^30 elements), find "
+                "returns the first match, reverse mirrors. Tied to /repo by differential execution on all arrays of length <= 7 over 3 "
+                "values x every selector x every pivot draw list x element sizes 1,2,3,4,8,16 (fast paths and memcpy path) under ASan "
+                "with red-zoned buffers, adversarial larger inputs and random scripts, comparing final arrays AND the exact "
+                "comparator/swap call logs; sortedness + multiset + byte-pattern oracle.",
+        "note": TB + " C stack depth of the recursive quicksort is not modelled (adversarial sizes stay far below the limit); byte-level cstl_swap is modelled as exchange and validated at each element width.",
+        "technique": "Lean 4 proof (loop invariants, permutation/sortedness by induction, termination measures) + call-log-exact correspondence check",
+    },
     "C06": {
         "design_ref": "DESIGN.md 4/C06",
         "text": "Lean 4 theorems over a labelled transition system with one micro-step per atomic operation / non-atomic access of "
